@@ -283,8 +283,9 @@ def gen_setups(ctx, nxmax, identical_refs=None, nxmin=8):
         ref = ref0.copy() if same else g.standard_normal((n_ref, N))
         mix = g.standard_normal((nm, n_ref))
         mov = mix @ ref + g.standard_normal((nm, N))
-        if rng.random() < 0.3:
-            s = 10.0 ** rng.uniform(-2, 2)
+        if rng.random() < 0.5:
+            # per-setup amplitude anywhere between 1e-8 and 1e8 (units of the sensors; the merge is scale-covariant)
+            s = 10.0 ** rng.uniform(-8, 8)
             ref, mov = s * ref, s * mov
         # the keys' insertion order carries no meaning
         Y.append({"ref": ref, "mov": mov} if rng.random() < 0.6 else {"mov": mov, "ref": ref})
@@ -485,6 +486,10 @@ def gen_recording(seed, quick, force=None):
     gains = [1.0] * n_set
     if rng.random() < 0.6:
         gains = [rng.choice([1.0, -1.0]) * 10.0 ** rng.uniform(-1.5, 1.5) for _ in range(n_set)]
+        if rng.random() < 0.5:
+            # all setups recorded in other units (micro-g, counts, ...): a common factor between 1e-8 and 1e8
+            common = 10.0 ** rng.uniform(-8, 8)
+            gains = [g_ * common for g_ in gains]
     datasets, ref_ind, movorder = build_datasets(X, refs, movs, gains, rng)
     return X, refs, movs, fs, nxseg, method, pov, gains, datasets, ref_ind, movorder
 
